@@ -36,6 +36,8 @@ STRUCT = [
     "if 1 { if 2 { if 3 { 4 } } }", "if 1 {} else {}", "while 0 {}", "i=0; while i<2 {i=i+1; while 0 {}}",
     "dct={}; dct.k = dct['j'] = []", "a=[1,2]; b = a[0] = 5", "a=[1,2,3]; b = a[0:1] = [5]", "x={}; x.a = x.b = 1", "d || [1,2]", "d6 || 1", "1 ?? d",
     "^st&射击= 1d6+2", "^st&射击 = 1d6", "^st&a: d6 &b=  2d6k1", "^st&力量:弓箭 =\n1d6+2", "^st&射击=  d6 + 力量", "^st &a = 2d6 , &b : d4",
+    "func outer(a) { x = 1 + 2; func inner(a) { a }; x + inner(a) }; outer(10)", "func f() { &c = 2d6 + 1; c + c }; f()", "func f(a) { func g(b) { func h(c) { c + 1 }; h(b) * 2 }; g(a) + 1 }; f(3)",
+    "&cv = 1 + 2; func f() { &cw = cv + 1; cw }; f()", "func f() { 1; 2; 3; 4; func g() { 5 }; g() + 6 }; f()", "if 1 { func f() { func g() { 7 }; g() }; f() }",
     "^st&射击=1d6+2", "^st&力量:弓箭=1d6+2", "^st&a=d6 &b=2d6k1", "&a = d6 + `x{d4}`; a", "func f(){ 2d6 + d4 }; f()", "func f(){ &q = 3d6; q }; f()",
     "i=0; while i<3 { i=i+1; if i==1 {break}; j=0; while j<2 { j=j+1; if j==1 {break} } }; i", "while 1 { break; while 1 { break } }", "while 1 { while 0 {}; break }",
     "// #EnableDice wod true\n3a8", "1 // c", "1 /* c */ + 2",
